@@ -60,7 +60,9 @@ const INNER: [&str; 7] = ["Inner", "1", "B", "2", "名", "$x", "Builder"];
 fn class_names(rng: &mut Rng, k: usize) -> Vec<String> {
     let mut out: Vec<String> = vec![];
     for i in 0..k {
-        let mut n = if i > 0 && rng.chance(1, 3) { format!("{}${}", rng.pick(&out).clone(), rng.pick(&INNER)) } else { format!("{}{}", rng.pick(&PKGS), rng.pick(&SIMPLE)) };
+        // 1 in 12: a `package-info` class (an interface javac writes for an annotated package) or another name ending in `-info`
+        let mut n = if rng.chance(1, 12) { format!("{}{}", rng.pick(&PKGS[1..]), rng.pick(&["package-info", "package-info", "Odd-info", "x-info"])) }
+            else if i > 0 && rng.chance(1, 3) { format!("{}${}", rng.pick(&out).clone(), rng.pick(&INNER)) } else { format!("{}{}", rng.pick(&PKGS), rng.pick(&SIMPLE)) };
         if out.contains(&n) || EXT_CLASSES.contains(&n.as_str()) { n = format!("{n}{i}"); }
         out.push(n);
     }
@@ -328,7 +330,9 @@ pub fn gen_mappings(rng: &mut Rng, jar_names: &[String], ext_mappable: &[&str], 
             let inner_of = n.rfind('$').filter(|p| *p > 0).and_then(|p| target.get(&n[..p]).map(|t| (t.clone(), n[p + 1..].to_string())));
             match inner_of {
                 Some((outer_t, simple)) if rng.chance(4, 5) => { tags.insert("inner class follows outer".into()); fresh(&mut taken, format!("{outer_t}${}", if simple.chars().all(|c| c.is_ascii_digit()) && !simple.is_empty() { simple } else { rng.pick(&TSIMPLE).to_string() })) }
-                _ => { let same_pkg = rng.chance(1, 4); let pkg = if same_pkg { n.rfind('/').map(|p| n[..=p].to_string()).unwrap_or_default() } else { tags.insert("package move".into()); rng.pick(&TPKG).to_string() }; fresh(&mut taken, format!("{pkg}{}", rng.pick(&TSIMPLE))) }
+                // a package-info class follows its package: it keeps its simple name
+                _ if n.ends_with("/package-info") && rng.chance(3, 4) => { tags.insert("package-info class moved with its package".into()); let pkg = *rng.pick(&TPKG[1..]); fresh(&mut taken, format!("{pkg}package-info")) }
+                _ => { if n.ends_with("-info") { tags.insert("class named *-info renamed".into()); } let same_pkg = rng.chance(1, 4); let pkg = if same_pkg { n.rfind('/').map(|p| n[..=p].to_string()).unwrap_or_default() } else { tags.insert("package move".into()); rng.pick(&TPKG).to_string() }; fresh(&mut taken, format!("{pkg}{}", rng.pick(&TSIMPLE))) }
             }
         };
         target.insert(n.clone(), t);
